@@ -307,3 +307,238 @@ for md in ("none", "idx", "rows"):
         for mk in ("int", "ratio"):
             UNITS[f"sub.{md}.{ex}.{mk}"] = unit_subsampling(md, ex, mk)
         UNITS[f"sub.{md}.{ex}.int.indices_only"] = unit_subsampling(md, ex, "int", ru=False)
+
+
+# ========================================================================================== ParallelUtilityEstimationWrapper.query (C20)
+"""ParallelUtilityEstimationWrapper.query: 'returns the same utilities and (for equal seeds) the same selection as the wrapped strategy for any
+number of jobs'.
+
+Assumed contract of the wrapped strategy (what makes chunked evaluation meaningful at all; checked per strategy by the bounded stand-in):
+its utilities are sample-wise -- query(X, y, candidates=<rows C>, batch_size=1, return_utilities=True)[1][0][i] = u(X, y, C[i]) for an
+(uninterpreted) scoring function u.  Ensures, for n_jobs = 1, 2, 3 (each for every data set with at least n_jobs candidates, every candidate mode):
+  chunks      the candidates are split into n_jobs consecutive, non-empty chunks covering them in order (numpy array_split); the wrapped
+              strategy is queried once per chunk on the caller's (validated) X, y with batch_size=1 and return_utilities=True
+  utilities   the vector handed to simple_batch holds u(X, y, x_c) at the position of candidate c (index space of X for None / index
+              candidates, candidate order for feature rows) and NaN at every non-candidate -- independent of n_jobs
+  selection   the result is simple_batch(utilities, random_state_, batch_size, return_utilities) (its contract: contracts/selection.py)
+Samples are modelled with ONE opaque feature (the wrapper never looks at features).  joblib: Parallel(n_jobs=k)(delayed(f)(c) for c in chunks)
+= [f(c) for c in chunks] (order preserved)."""
+PCLS = "ParallelUtilityEstimationWrapper"
+UF = z3.Function("inner_utility", USort, R)
+UFNAN = z3.Function("inner_utility_is_nan", USort, B)
+
+
+def _select_py(vals, j):
+    if isinstance(j, int):
+        return vals[j]
+    js = z3.simplify(j)
+    if z3.is_int_value(js):
+        return vals[js.as_long()]
+    raise Unsupported("symbolic position in a short python list")
+
+
+def parallel_lib(ctx, mode):
+    from pyvc.se import NativeFn, DictData
+    L = pool_lib()
+
+    def validate_contract(E, st, recv, args, kw, node):
+        names = ["X", "y", "candidates", "batch_size", "return_utilities", "reset", "check_X_dict"]
+        a = dict(zip(names, args))
+        a.update(kw)
+        od = st.get(recv)
+        nf = dict(od.fields)
+        nf["missing_label_"] = nf.get("missing_label")
+        rng = st.alloc(RngData(fresh_fn("stream", I, R), fresh("pos", I), fresh("aux", I)))
+        nf["random_state_"] = rng
+        ctx["rng"] = rng
+        st.put(recv, ObjData(od.cls, nf))
+        bs2 = fresh("batch_size_validated", I)
+        st.assume(to_int(a["batch_size"]) >= 1, bs2 >= 0, bs2 <= to_int(a["batch_size"]))
+        ctx["bs_validated"] = bs2
+        return (a["X"], a["y"], a["candidates"], bs2, a["return_utilities"])
+
+    def transform_contract(E, st, recv, args, kw, node):
+        """contract of _transform_candidates (units pool_base._transform_candidates.*): feature rows come back as they are without a mapping;
+        otherwise mapping = the candidate indices (None: the unlabeled ones), strictly increasing, and X_cand = X[mapping]"""
+        if mode == "rows":
+            return (args[0], None)
+        X = as_array(args[1], st)
+        mp = ctx["mapping"]
+        Xc = ArrData((mp.shape[0], 1), lambda i, j: X.sel(to_int(mp.sel(i)), j), "o")
+        ctx["X_cand"] = Xc
+        return (st.alloc(Xc), ctx["mapping_ref"])
+    for c in ("SingleAnnotatorPoolQueryStrategy", "PoolQueryStrategy", PCLS):
+        L.contracts[f"{c}._validate_data"] = validate_contract
+        L.contracts[f"{c}._transform_candidates"] = transform_contract
+
+    def inner_query(E, st, recv, args, kw, node):
+        cand = as_array(kw["candidates"], st)
+        if cand.ndim != 2:
+            raise Unsupported("inner strategy queried with something else than feature rows")
+        U = ArrData((1, cand.shape[0]), lambda r, i, cand=cand: mk_fv(UFNAN(cand.sel(i, z3.IntVal(0)).sym), UF(cand.sel(i, z3.IntVal(0)).sym)), "f")
+        q = st.alloc(ArrData((1,), fresh_sel("inner_q", "i"), "i"))
+        ctx.setdefault("inner_calls", []).append(dict(kw=dict(kw), args=list(args), cand=cand))
+        if kw.get("return_utilities") is True:
+            return (q, st.alloc(U))
+        return q
+    L.contracts["__inner__.query"] = inner_query
+
+    @L.fn("Parallel")
+    def _parallel(E, st, args, kw, node):
+        ctx.setdefault("parallel_kw", []).append(dict(kw))
+
+        def run(E, st, a, k, node):
+            lst = st.get(a[0]) if isinstance(a[0], Ref) else None
+            if not isinstance(lst, ListData) or not isinstance(lst.n, int):
+                raise Unsupported("Parallel(...) applied to something else than a short list of delayed calls")
+            out = []
+            for j in range(lst.n):
+                d = st.get(lst.sel(j))
+                out.append(E.call_funcval(d.fields["f"], list(d.fields["args"]), dict(d.fields["kwargs"]), st))
+            return st.alloc(ListData(len(out), lambda j, out=tuple(out): _select_py(out, j), "o"))
+        return NativeFn("Parallel(...)", run)
+
+    @L.fn("delayed")
+    def _delayed(E, st, args, kw, node):
+        f = args[0]
+
+        def mk(E, st, a, k, node):
+            return st.alloc(ObjData("__delayed__", {"f": f, "args": tuple(a), "kwargs": dict(k)}))
+        return NativeFn("delayed(f)", mk)
+
+    base_min = L.functions["min"]
+
+    @L.fn("min")
+    def _min(E, st, args, kw, node):
+        """min(k, n) for a constant k and a length n that is known to be at least k on this path: k"""
+        if len(args) == 2 and isinstance(args[0], int) and is_z3(args[1]):
+            s = z3.Solver()
+            s.set("timeout", 2000)
+            s.add(*st.pc)
+            s.add(to_int(args[1]) < args[0])
+            if s.check() == z3.unsat:
+                return args[0]
+        return base_min(E, st, args, kw, node)
+
+    @L.fn("np.array_split")
+    def _split(E, st, args, kw, node):
+        """np.array_split(a, k) along axis 0 for a constant k: k consecutive chunks, the first len(a) % k of length len(a) // k + 1, the others
+        of length len(a) // k"""
+        a = as_array(args[0], st) if isinstance(args[0], Ref) else None
+        k = args[1]
+        if a is None or not isinstance(k, int) or k < 1 or k > 4 or kw:
+            raise Unsupported("np.array_split with a non-constant number of chunks")
+        n = to_int(a.shape[0])
+        q, r = n / k, n % k
+        offs = [z3.IntVal(0)]
+        for i in range(k):
+            offs.append(z3.simplify(offs[-1] + q + z3.If(i < r, 1, 0)))
+        chunks = []
+        for i in range(k):
+            lo, sz = offs[i], z3.simplify(offs[i + 1] - offs[i])
+            if a.ndim == 2:
+                c = ArrData((sz, a.shape[1]), lambda t, j, lo=lo: a.sel(lo + t, j), a.kind)
+            else:
+                c = ArrData((sz,), lambda t, lo=lo: a.sel(lo + t), a.kind)
+            chunks.append(st.alloc(c))
+        ctx["chunks"] = (offs, chunks)
+        return st.alloc(ListData(k, lambda j, ch=tuple(chunks): _select_py(ch, j), "o"))
+
+    @L.fn("cpu_count")
+    def _cpu(E, st, args, kw, node):
+        return fresh("cpu_count", I)
+
+    def simple_batch_site(E, st, args, kw, node):
+        names = ["utilities", "random_state", "batch_size", "return_utilities", "method"]
+        a = dict(zip(names, args))
+        a.update(kw)
+        res = Opaque("simple_batch_result")
+        ctx.setdefault("sites", []).append(dict(U=a.get("utilities"), rs=a.get("random_state"), bs=a.get("batch_size"), ru=a.get("return_utilities"),
+                                            method=a.get("method"), result=res, pre={r.id: st.heap.get(r.id) for r in [a.get("utilities")] if isinstance(r, Ref)}))
+        return res
+    L.functions["simple_batch"] = simple_batch_site
+    return L
+
+
+def unit_parallel(mode, k):
+    ctx = {}
+
+    def setup(E, st):
+        ctx.clear()
+        n = z3.Int("n")
+        st.assume(n >= 1)
+        Xd = ArrData((n, 1), fresh_sel("X", "o", 2), "o")
+        yd = ArrData((n,), fresh_sel("y", "o"), "o")
+        X, y = st.alloc(Xd), st.alloc(yd)
+        inner = st.alloc(ObjData("__inner__", {"__open__": True, "__isinstance__": ("SingleAnnotatorPoolQueryStrategy", "PoolQueryStrategy", "QueryStrategy")}))
+        selfo = st.alloc(ObjData(PCLS, {"query_strategy": inner, "n_jobs": k, "parallel_dict": None, "missing_label": Opaque("missing_label"),
+                                        "random_state": Opaque("random_state")}))
+        c = z3.Int("n_candidates")
+        st.assume(c >= k)                                  # at least one candidate per job
+        if mode == "rows":
+            cd = ArrData((c, 1), fresh_sel("candrows", "o", 2), "o")
+            cand = st.alloc(cd)
+            ctx["X_cand"] = cd
+        else:
+            mp = ArrData((c,), fresh_sel("mapping", "i"), "i")
+            t, u = z3.Ints("mp_t mp_u")
+            st.assume(z3.ForAll([t, u], z3.Implies(z3.And(0 <= t, t < u, u < c), to_int(mp.sel(t)) < to_int(mp.sel(u)))))
+            st.assume(z3.ForAll([t], z3.Implies(z3.And(0 <= t, t < c), z3.And(0 <= to_int(mp.sel(t)), to_int(mp.sel(t)) < n))))
+            mp.strictly_increasing = True
+            ctx["mapping"] = mp
+            ctx["mapping_ref"] = st.alloc(mp)
+            cand = ctx["mapping_ref"] if mode == "idx" else None
+        bs, ru = z3.Int("batch_size"), z3.Bool("return_utilities")
+        ctx.update(n=n, c=c, X=X, y=y, self=selfo, bs=bs, ru=ru, Xd=Xd)
+        return {"args": [selfo, X, y], "kwargs": {"candidates": cand, "batch_size": bs, "return_utilities": ru}}
+
+    def post(E, c_, outs):
+        rets = returns(outs)
+        if not rets:
+            E.oblige("reaches.return", [], z3.BoolVal(False))
+        n, c = ctx["n"], ctx["c"]
+        for o in rets:
+            st = o.state
+            sites = ctx.get("sites", [])
+            E.oblige("C20.parallel.result_is_simple_batch_of_the_utilities", st, z3.BoolVal(len(sites) == 1 and o.value is sites[0]["result"]))
+            calls = ctx.get("inner_calls", [])
+            E.oblige("C20.parallel.one_inner_query_per_job", st, z3.BoolVal(len(calls) == k))
+            pk = ctx.get("parallel_kw", [])
+            E.oblige("C20.parallel.pool_created_with_n_jobs", st, z3.BoolVal(len(pk) == 1 and pk[0].get("n_jobs") == k))
+            for cl in calls:
+                kw = cl["kw"]
+                E.oblige("C20.parallel.inner_query_sees_the_callers_data", st, z3.BoolVal(
+                    isinstance(kw.get("X"), Ref) and kw["X"].id == ctx["X"].id and isinstance(kw.get("y"), Ref) and kw["y"].id == ctx["y"].id
+                    and kw.get("batch_size") == 1 and kw.get("return_utilities") is True))
+            if len(sites) != 1:
+                continue
+            s = sites[0]
+            E.oblige("C20.parallel.selection_uses_random_state__batch_size_and_flag", st, z3.And(
+                z3.BoolVal(isinstance(s["rs"], Ref) and s["rs"].id == ctx["rng"].id and s["method"] in (None, "max")),
+                to_int(s["bs"]) == ctx["bs_validated"], z3bool(s["ru"]) == ctx["ru"]))
+            U = s["pre"].get(s["U"].id) if isinstance(s["U"], Ref) else None
+            if not isinstance(U, ArrData) or U.ndim != 1:
+                E.oblige("C20.parallel.utilities_form_a_vector", st, z3.BoolVal(False))
+                continue
+            Xc = ctx["X_cand"]
+            i, j = z3.Ints("pu_i pu_j")
+            tok = Xc.sel(i, z3.IntVal(0)).sym
+            if mode == "rows":
+                pos = i
+                E.oblige("C20.parallel.one_utility_per_candidate", st, to_int(U.shape[0]) == c)
+            else:
+                pos = to_int(ctx["mapping"].sel(i))
+                E.oblige("C20.parallel.one_utility_per_sample", st, to_int(U.shape[0]) == n)
+                un, uv = to_real(U.sel(j))
+                E.oblige("C20.parallel.non_candidates_are_nan", st, z3.ForAll([j], z3.Implies(
+                    z3.And(0 <= j, j < n, z3.Not(z3.Exists([i], z3.And(0 <= i, i < c, to_int(ctx["mapping"].sel(i)) == j)))), un)))
+            un, uv = to_real(U.sel(pos))
+            E.oblige("C20.parallel.utility_of_candidate_is_the_wrapped_strategys_score", st, z3.ForAll([i], z3.Implies(
+                z3.And(0 <= i, i < c), z3.And(un == UFNAN(tok), z3.Or(un, uv == UF(tok))))))
+    return se_unit(f"pool_wrappers.ParallelUtilityEstimationWrapper.query.{mode}.jobs{k}", FW, f"{PCLS}.query", PCLS, setup, post,
+                   lib_factory=lambda: parallel_lib(ctx, mode))
+
+
+for _m in ("none", "idx", "rows"):
+    for _k in (1, 2, 3):
+        UNITS[f"ParallelUtilityEstimationWrapper.query.{_m}.jobs{_k}"] = unit_parallel(_m, _k)
